@@ -183,17 +183,77 @@ def run(ctx):
         is0 = lambda x: x.strip().k == "const" and x.strip().a.get("v") == 0
         depth_of = lambda x: any(c.a["name"] == "depth" for c in x.call_nodes())
         dev_of = lambda x: any(c.a["name"] in ("device_of", "dev", "st_dev") for c in x.call_nodes())
+        def has_dir(x):
+            return any(y.k == "arg" and y.a["name"] == "dir" for y in prim.expand_single_def_vars(pf, x).walk())
+
+        def exempt(at):
+            a_, b_ = at["a"].strip(), at["b"].strip()
+            if (at["rel"] == "ne" and a_.k == "field" and a_.a == "same_file_system" and b_.k == "const" and b_.a.get("v") is True) or \
+               (at["rel"] == "eq" and a_.k == "field" and a_.a == "same_file_system" and b_.k == "const" and b_.a.get("v") is False):
+                return "not -xdev"
+            if prim.atom_holds([at], "le", depth_of, is0) or prim.atom_holds([at], "eq", depth_of, is0):
+                return "starting point"
+            if at["rel"] == "eq" and dev_of(at["a"]) and dev_of(at["b"]) and (has_dir(at["a"]) != has_dir(at["b"])):
+                return "same device"
+            return None
+        pending_phi = []
         for b in pf.reachable():
             for tgt, atoms in prim.edge_atoms(pf, b):
+                done_ = False
                 for at in atoms:
-                    a_, b_ = at["a"].strip(), at["b"].strip()
-                    if (at["rel"] == "ne" and a_.k == "field" and a_.a == "same_file_system" and b_.k == "const" and b_.a.get("v") is True) or \
-                       (at["rel"] == "eq" and a_.k == "field" and a_.a == "same_file_system" and b_.k == "const" and b_.a.get("v") is False):
-                        removed.add((b, tgt)); classes.add("not -xdev")
-                    elif prim.atom_holds([at], "le", depth_of, is0) or prim.atom_holds([at], "eq", depth_of, is0):
-                        removed.add((b, tgt)); classes.add("starting point")
-                    elif at["rel"] == "eq" and dev_of(at["a"]) and dev_of(at["b"]) and (any(x.k == "arg" and x.a["name"] == "dir" for x in at["a"].walk()) != any(x.k == "arg" and x.a["name"] == "dir" for x in at["b"].walk())):
-                        removed.add((b, tgt)); classes.add("same device")
+                    cl_ = exempt(at)
+                    if cl_:
+                        removed.add((b, tgt)); classes.add(cl_); done_ = True
+                if done_:
+                    continue
+                # the condition computed first (`let other = xdev && depth > 0 && dev != root; if .. && !other`): the switch
+                # tests a bool that is a constant on the short-circuit paths and the last comparison otherwise. The edge is
+                # exempt when every way the bool can have this edge's value establishes one of the three conditions.
+                for at in atoms:
+                    a_ = at["a"].strip()
+                    bv = at["b"].strip().a.get("v") if at["b"].strip().k == "const" else None
+                    if a_.k != "phi" or not isinstance(bv, bool) or at["rel"] not in ("eq", "ne"):
+                        continue
+                    pending_phi.append((b, tgt, a_, bv if at["rel"] == "eq" else (not bv)))
+                    continue
+        # blocks that can only be entered over exempt edges (the short-circuit exits of `a && b && c` meet in one block)
+        def exempt_blocks():
+            ex = set()
+            changed = True
+            preds_ = pf.preds()
+            while changed:
+                changed = False
+                for x in pf.reachable():
+                    if x in ex or x == 0:
+                        continue
+                    ps_ = [q for q in preds_.get(x, []) if q in pf.reachable()]
+                    if ps_ and all((q, x) in removed or q in ex for q in ps_):
+                        ex.add(x)
+                        changed = True
+            return ex
+        for _round in range(3):
+            exb = exempt_blocks()
+            grew = False
+            for b, tgt, phi_, tv in pending_phi:
+                if (b, tgt) in removed:
+                    continue
+                ways = []
+                for alt in phi_.kids:
+                    s_ = alt.strip()
+                    if s_.k == "const" and isinstance(s_.a.get("v"), bool):
+                        if s_.a["v"] != tv:
+                            continue                        # this way gives the other value
+                        where_ = alt.bb if alt.bb is not None else s_.bb
+                        ats_ = prim.norm_guards(prim.dominating_guards(pf, where_)) if where_ is not None else []
+                        cl_ = next((exempt(x) for x in ats_ if exempt(x)), None)
+                        ways.append(cl_ or ("short-circuit" if where_ in exb else None))
+                    else:
+                        ats_ = prim.norm_guards([{"bb": b, "labels": [], "pred": alt, "bool": tv, "target": tgt, "all_labels": []}])
+                        ways.append(next((exempt(x) for x in ats_ if exempt(x)), None))
+                if ways and all(ways):
+                    removed.add((b, tgt)); classes |= set(w for w in ways if w != "short-circuit"); grew = True
+            if not grew:
+                break
         seen = set()
         st = [t_ for s_ in starts for t_, ats in prim.edge_atoms(pf, s_) if any(a["rel"] == "eq" and a["b"].strip().a.get("v") is True for a in ats if a["b"].strip().k == "const")]
         while st:
